@@ -109,12 +109,24 @@ def m_part(run, scr, nat):
                 items.append((nwords, D, fetch, words, whole,
                               "%d word(s) path[%s]: a returned number is the rounded documented total (or the plain non-negative number of minutes) and fits u32 - never a wrapped, saturated or otherwise wrong number" % (nwords, p),
                               pcs + ["(not %s)" % good], "unsat"))
+                # the plain-number reading involves no float arithmetic, so "rounded" is exact there: half minutes go up
+                items.append((nwords, D, fetch, words, whole,
+                              "%d word(s) path[%s]: a plain number of minutes is rounded to the nearest whole minute, halves up (exact)" % (nwords, p),
+                              pcs + [whole.float_ok, "(not %s)" % V0, "(>= %s 0.0)" % whole.float, inrange(whole.float),
+                                     "(not (= %s (to_int (+ %s 0.5))))" % (t, whole.float)], "unsat"))
             else:
                 items.append((nwords, D, fetch, words, whole,
                               "%d word(s) path[%s]: a documented pair sequence whose total fits is never refused" % (nwords, p),
                               pcs + [V0, well_inside(T0), "(>= %s 0.0)" % T0], "unsat"))
         if n_ok == 0:
             run.inconclusive.append("parse_time on %d word(s): no successful path found" % nwords)
+    # ---- dynamic_time_units: with a converter that has units, a number comes back only through a unit of TIME found under
+    #      min / minute / minutes / m, and it is what Converter::convert (C09's claim) makes of (value, unit) in that unit
+    try:
+        dyn_items = dynamic_units_part(run, ms, nat)
+    except mir.Unsupported as e:
+        run.inconclusive.append("encoder (dynamic_time_units): %s" % e)
+        dyn_items = None
     run.assumptions += [
         "strings are abstracted to 1..4 whitespace-separated words, each `<digits/dots><rest>`; what the code can observe of a word "
         "(number part parses or not and its value in [0,1e12], the rest as an SMT string, emptiness of either part) is symbolic",
@@ -190,6 +202,163 @@ def reference_minutes(s):
     return r if r <= U32MAX else None
 
 
+def dynamic_units_part(run, ms, nat):
+    dump, decls = ms.dump, ms.decls
+    sem = smt.RealSem(prefix="dyn")
+    mods = dict(models.STD_MODELS)
+    mods.update(models.MORE_MODELS)
+    mods.update(models.VEC_MODELS)
+    it = mir.Interp(dump, decls, sem, models=mods)
+    f_dyn = dump.find(r"^dynamic_time_units$")
+    run.functions.append("metadata::dynamic_time_units (MIR)")
+    uf = decls.structs.lookup("Unit", "convert")
+    pqn = [v for v, _ in decls.enums["PhysicalQuantity"]]
+    cvn = [v for v, _ in decls.enums["ConvertValue"]]
+    names = ["min", "minute", "minutes", "m"]
+    found, units = {}, {}
+    for i, n in enumerate(names):
+        found[n] = sem.sym_int("dyn_found%d" % i, "isize", 0, 1)
+        units[n] = OpenAgg("Unit", {str(uf.index("physical_quantity")): SV("isize", sem.sym_int("dyn_pq%d" % i, "isize", 0, len(pqn) - 1))})
+    looked = []
+
+    def m_find_unit(it_, a, callee):
+        key = a[1]
+        txt = key.expr.strip('"') if isinstance(key, SV) else None
+        if txt not in found:
+            raise mir.Unsupported("dynamic_time_units looks up %r" % (key,))
+        looked.append(txt)
+        return models.mk_option(it_, SV("isize", found[txt]), units[txt])
+    calls = []
+    conv_ok = sem.sym_int("dyn_conv_ok", "isize", 0, 1)
+    conv_out = sem.fresh("Real", "dyn_conv_out")
+
+    def m_convert(it_, a, callee):
+        calls.append(a)
+        it_.emit(("convert", a))
+        val = Enum("ConvertValue", SV("isize", str(cvn.index("Number"))), {"Number": Agg("ConvertValue::Number", {"0": SV("f64", conv_out)})}, cvn)
+        ok = it_._mk_enum("Result", "Ok", [Agg("tuple", {"0": val, "1": Opaque("unit")})])
+        return [(["(= dyn_conv_ok 1)"], ok, "return", None),
+                (["(= dyn_conv_ok 0)"], it_._mk_enum("Result", "Err", [Opaque("ConvertError")]), "return", None)]
+
+    def m_pq_ne(it_, a, callee):
+        x, y = it_.deref(a[0], it_.cur_env), it_.deref(a[1], it_.cur_env)
+        ex = lambda v: v.expr if isinstance(v, SV) else v.discr.expr
+        return SV("bool", "(not (= %s %s))" % (ex(x), ex(y)))
+    saved = dict(it.models)
+    it.models.update(models.MORE_MODELS)
+    it.models.update(models.RESULT_MODELS)
+    it.models.update({
+        r"^Converter::find_unit$": m_find_unit,
+        r"^Converter::convert$": m_convert,
+        r"^<convert::PhysicalQuantity as PartialEq>::(ne|eq)$": m_pq_ne,
+        r"^<std::sync::Arc<convert::Unit> as Deref>::deref$": models.m_identity,
+        r"^<ConvertTo<'_> as From<&std::sync::Arc<convert::Unit>>>::from$": lambda it_, a, cal: Opaque("ConvertTo::Unit", [it_.deref(a[0], it_.cur_env) if not isinstance(a[0], (Agg, Opaque)) else a[0]]),
+    })
+    value = SV("f64", sem.fresh("Real", "dyn_value"))
+    unit = Opaque("the unit word")
+    items = []
+    time_idx = pqn.index("Time")
+    # the unit the chain min -> minute -> minutes -> m settles on
+    chosen_time = "false"
+    for i in range(len(names) - 1, -1, -1):
+        chosen_time = "(ite (= dyn_found%d 1) (= dyn_pq%d %d) %s)" % (i, i, time_idx, chosen_time)
+    n_ok = 0
+    try:
+        outs = it.run(f_dyn, [value, unit, Opaque("converter")])
+        for o in outs:
+            p = ">".join(o.trace[-3:])
+            pcs = mcheck.pc_assert(o.pc)
+            if o.kind == "panic":
+                # `unreachable!()` after convert: Converter::convert returns the kind of value it was given (C09)
+                items.append(("dynamic_time_units never panics: %s" % str(o.msg)[:40], pcs, "unsat"))
+                continue
+            if o.kind != "return":
+                continue
+            if "Ok" in o.value.variants:
+                n_ok += 1
+                r = o.value.variants["Ok"].fields["0"]
+                faithful = "false"
+                mine = [e[1] for e in o.events if isinstance(e, tuple) and e[0] == "convert"]
+                if len(mine) == 1:
+                    a = mine[0]
+                    cv, cu, to = a[1], a[2], a[3]
+                    v_in = cv.variants["Number"].fields["0"] if isinstance(cv, Enum) and "Number" in cv.variants else None
+                    key_in = cu.variants["Key"].fields["0"] if isinstance(cu, Enum) and "Key" in cu.variants else None
+                    tgt = to.args[0] if isinstance(to, Opaque) and to.what == "ConvertTo::Unit" else None
+                    tgt_is_chosen = "false"
+                    for i in range(len(names) - 1, -1, -1):
+                        tgt_is_chosen = "(ite (= dyn_found%d 1) %s %s)" % (i, "true" if tgt is units[names[i]] else "false", tgt_is_chosen)
+                    if v_in is not None and key_in is unit and isinstance(r, SV):
+                        faithful = "(and (= %s %s) (= %s %s) %s)" % (v_in.expr, value.expr, r.expr, conv_out, tgt_is_chosen)
+                items.append(("dynamic_time_units Ok path[%s]: a number is returned only when the unit found under min/minute/minutes/m is a unit of "
+                              "time, and it is Converter::convert(value, unit) into that unit" % p,
+                              pcs + ["(not (and %s (= dyn_conv_ok 1) %s))" % (chosen_time, faithful)], "unsat"))
+                items.append(("reachable: dynamic_time_units Ok path[%s]" % p, pcs, "sat"))
+            else:
+                items.append(("dynamic_time_units Err path[%s]: a convertible value in a time unit is never refused" % p,
+                              pcs + [chosen_time, "(= dyn_conv_ok 1)"], "unsat"))
+    finally:
+        it.models.clear()
+        it.models.update(saved)
+    if n_ok == 0:
+        run.inconclusive.append("dynamic_time_units: no successful path found")
+    if looked[:4] != names and sorted(set(looked)) != sorted(names):
+        run.inconclusive.append("dynamic_time_units: unexpected lookup chain %r" % looked[:6])
+
+    def on_sat(name):
+        def cb(model, ob, item):
+            confirm_dynamic(run, nat, name, ob)
+        return cb
+    batch = mcheck.Batch(ms, "c13-dyn", list(sem.decls), timeout_s=60)
+    for name, asserts, expect in items:
+        batch.add(name, asserts, expect, (), on_sat(name))
+    batch.run()
+    return items
+
+
+RENAMED_EXPECT = [
+    # (converter variant, string, documented minutes)
+    ("metre", "2 km", None), ("metre", "1 km 500 m", None), ("metre", "2 hr", None), ("metre", "90", 90),
+    ("minute", "2 hr", 120), ("minute", "90 sg", 2), ("minute", "2 km", None), ("minute", "1 hr 30 m", 90), ("minute", "3 m", 3),
+]
+
+
+def renamed_vectors(run, nat):
+    """parse_time with renamed-units converters through the public accessor; returns the first disagreement"""
+    tried = 0
+    for variant, s, want in RENAMED_EXPECT:
+        for profile in nat.bins:
+            r = nat.call("time_renamed", variant, s, profile=profile)
+            tried += 1
+            got = r.get("minutes") if isinstance(r, dict) else None
+            if not isinstance(r, dict) or r.get("panic") or "error" in r:
+                run.traces_validated += tried
+                return "as_minutes(%r) with the %s-`m` converter: %r" % (s, variant, r), (variant, s, profile)
+            if got != want:
+                run.traces_validated += tried
+                return "as_minutes(%r) with renamed units (`m` = %s) = %r, documented reading: %r" % (s, variant, got, want), (variant, s, profile)
+    run.traces_validated += tried
+    return None, None
+
+
+def confirm_dynamic(run, nat, name, ob):
+    bad, key = renamed_vectors(run, nat)
+    if bad:
+        run.violation("kernel=metadata::dynamic_time_units", bad, dict(engine="mir-smt", replay="time_renamed", variant=key[0], string=key[1], profile=key[2]))
+        ob["status"] = "violated"
+    else:
+        run.inconclusive.append("C13 %s: candidate does not reproduce with the renamed-units converters" % name[:80])
+
+
+def is_plain_number(s):
+    """no unit arithmetic behind the reading: the rounded value is exact, no tolerance applies"""
+    try:
+        float(s)
+        return True
+    except ValueError:
+        return False
+
+
 def confirm_time(run, nat, words, whole, model, name, ob):
     """build concrete strings from the model and compare the public accessor with the documented reading"""
     cands = []
@@ -218,7 +387,7 @@ def confirm_time(run, nat, words, whole, model, name, ob):
             got = r.get("minutes") if isinstance(r, dict) else None
             if r.get("panic") or "error" in r:
                 bad = "as_minutes(%r) panicked" % s
-            elif got != want and not (got is not None and want is not None and abs(got - want) <= 1):
+            elif got != want and not (got is not None and want is not None and abs(got - want) <= 1 and not is_plain_number(s)):
                 bad = "as_minutes(%r) = %r, documented reading: %r" % (s, got, want)
             else:
                 continue
@@ -243,7 +412,8 @@ def check(run):
     ]
     run.not_covered += [
         "tags, author/source name-URL split (String/Cow/Vec building: not affordable, see DESIGN 5/C13)",
-        "dynamic units through a non-empty converter (HashMap lookups)",
+        "dynamic units: Converter::find_unit / Converter::convert are abstract in the encoding (their own behaviour is C09 / C16 territory); "
+        "the link to real converters is the renamed-units validation vectors only",
         "the parse-time warning <-> accessor link (needs the analysis pass)",
     ]
     only = os.environ.get("VERIF_ONLY", "")
@@ -255,13 +425,16 @@ def check(run):
         except mir.Unsupported as e:
             run.inconclusive.append("encoder: %s" % e)
         # validation: documented reading vs the real accessor on concrete strings
-        for s_ in ("90 s", "1 hour 30 min", "1hour 30min", "3 d 2 h", "45 secs", "25 secs", "   0  hours 90min 59 sec ", "90", "1 kilometer", "1hour30min"):
+        for s_ in ("30 sec", "150 s", "2 min 30 sec", "1 h 30 s", "0.5", "12.5", "90 s", "1 hour 30 min", "1hour 30min", "3 d 2 h", "45 secs", "25 secs", "   0  hours 90min 59 sec ", "90", "1 kilometer", "1hour30min"):
             r = nat.call("time", s_)
             run.traces_validated += 1
             if r.get("minutes") != reference_minutes(s_.strip()) and not run.violations:
                 run.violation("validation-vector time %s" % s_.strip().replace(" ", "_"),
                               "as_minutes(%r) = %r but the documented reading gives %r" % (s_, r, reference_minutes(s_.strip())),
                               dict(engine="validation-vector", replay="time", string=s_.strip()))
+        bad, key = renamed_vectors(run, nat)
+        if bad and not run.violations:
+            run.violation("validation-vector time_renamed", bad, dict(engine="validation-vector", replay="time_renamed", variant=key[0], string=key[1], profile=key[2]))
     if only in ("", "K"):
         kani_group.run_group(run, scr, registry.select("C13", run.tier))
 
@@ -278,6 +451,15 @@ def replay(run, path):
         want = reference_minutes(obj["string"])
         print("replay: as_minutes(%r) = %r, documented %r" % (obj["string"], r, want))
         if r.get("panic") or r.get("minutes") != want:
+            print("VIOLATION property=C13 replay=%s" % path)
+            return 1
+        return 0
+    if obj.get("replay") == "time_renamed":
+        nat = native.Native(scr)
+        nat.build()
+        bad, key = renamed_vectors(run, nat)
+        print("replay: %s" % (bad or "all renamed-units readings as documented"))
+        if bad:
             print("VIOLATION property=C13 replay=%s" % path)
             return 1
         return 0
